@@ -433,7 +433,7 @@ def w_machine(acc, n, seed):
         def consistent(self):
             if not self.ops:
                 return
-            res = o_history(self.ops)
+            res = harness.eval_oracle(PROP, "history", o_history, self.ops)
             if res[0] is not None:
                 self.failed = res
                 state["last"] = (list(self.ops), res[0])
@@ -441,7 +441,7 @@ def w_machine(acc, n, seed):
 
         def teardown(self):
             if self.ops and self.failed is None:
-                outer.record("history", list(self.ops), o_history(self.ops))
+                outer.record("history", list(self.ops), harness.eval_oracle(PROP, "history", o_history, self.ops))
 
     try:
         run_state_machine_as_test(
